@@ -147,3 +147,27 @@ Example c06_example_failed_removed_now :
   let s := run repaired (init 1000 None) [ESetCtx 1 false; ESetKey 1 true; EProceed 0 true; EReturn 0 (OErr 0); EBook 0] in
   failed (getr s 0) = true /\ present s 1 = true /\ present (fst (remove_key s 1)) 1 = false.
 Proof. vm_compute. repeat split; reflexivity. Qed.
+
+(* the monitors on a Release call that leaves its rc.mtx section before Keyed.RemoveKey (observation format of Spec.v;
+   the model has no such step, the monitors follow it: event 12 observed with relcode 3, then event 20).  The last
+   reference to key 1 is released, a new reference is taken in the window, then the late RemoveKey removes the key:
+   "a reference-counted key is present while an unreleased reference exists" (6/4) and the key set (6/1) are false at
+   that step.  The same calls in the order the code allows are silent. *)
+From Util Require Import Keyed.Spec.
+Example c06_example_monitor_flags_late_removekey :
+  let evs := [[10;1]; [11;0]; [12;0]; [10;1]; [20;0]]%N in
+  let obss := [[1001;0; 1;1;1001; 0; 0; 0; 0];
+               [1;1;1001; 0; 0; 0; 1;1];
+               [1;1;1001; 0; 0; 0; 1;3];
+               [1001;1; 1;1;1001; 0; 0; 0; 1;3];
+               [0; 0; 0; 0; 1;2]]%N in
+  let is6 (c i : nat) (x : issue) := match x with PropFalse 6%nat c' i' => Nat.eqb c c' && Nat.eqb i i' | _ => false end in
+  let r := run_check_keyed [1;0;0]%N evs obss in
+  existsb (is6 1%nat 4%nat) r = true /\ existsb (is6 4%nat 4%nat) r = true /\
+  existsb (fun x => match x with PropFalse _ _ i => Nat.ltb i 4%nat | _ => false end) r = false.
+Proof. vm_compute. repeat split; reflexivity. Qed.
+Example c06_example_monitor_silent_on_model_trace :
+  let evs := [[10;1]; [11;0]; [12;0]; [10;1]; [5;1]; [11;1]; [10;1]; [12;1]; [19]]%N in
+  length (run_obs step_opt (hinit [1;0;0]%N) evs) = 9%nat /\
+  run_check_keyed [1;0;0]%N evs (run_obs step_opt (hinit [1;0;0]%N) evs) = [].
+Proof. vm_compute. split; reflexivity. Qed.
